@@ -15,6 +15,8 @@ func main() {
 	switch os.Args[1] {
 	case "scan":
 		cmdScan(os.Args[2:])
+	case "tree":
+		cmdTree(os.Args[2:])
 	default:
 		fmt.Fprintln(os.Stderr, "unknown command", os.Args[1])
 		os.Exit(2)
